@@ -279,13 +279,7 @@ def insertLinked (b : Book) (v : Vertex) (parents : List Hash) : Book × Option 
 /-- accountant.go CreateLeaf. `order1`/`order2` are the tip iteration orders of the (up to) two
 `getValidLeaves` passes; `tip` is the vertex the implementation produced (time stamp, hash and
 signature are not predictable) and is *checked* against what the code must have built. -/
-def createLeaf (b : Book) (trx : Trx) (order1 order2 : List Hash) (tip : Vertex) : Book × Except Err Vertex :=
-  if !b.loaded then (b, .error [.notLoaded]) else
-  if trx.isEmpty then (b, .error [.trxEmpty]) else
-  if !trx.spice.canonB then (b, .error [.notCanonical]) else
-  if trx.issuer == b.self then (b, .error [.ownNode]) else
-  if trx.issuer == b.genesis then (b, .error [.genesisIssuer]) else
-  if b.indexHas trx.hash then (b, .error [.trxExists]) else
+def createLeafLocked (b : Book) (trx : Trx) (order1 order2 : List Hash) (tip : Vertex) : Book × Except Err Vertex :=
   let g1 := b.getValidLeaves order1
   let res : Book × Except Err (Vertex × Option Vertex) :=
     match g1.err with
@@ -313,6 +307,17 @@ def createLeaf (b : Book) (trx : Trx) (order1 order2 : List Hash) (tip : Vertex)
     | (b', some 1) => (b', .error [.unexpected])
     | (b', some _) => (b', .error [.newLeafRejected])
 
+/-- accountant.go CreateLeaf: the checks made before `ab.mux.Lock()` (on the book of that moment), then
+the locked body `createLeafLocked`. -/
+def createLeaf (b : Book) (trx : Trx) (order1 order2 : List Hash) (tip : Vertex) : Book × Except Err Vertex :=
+  if !b.loaded then (b, .error [.notLoaded]) else
+  if trx.isEmpty then (b, .error [.trxEmpty]) else
+  if !trx.spice.canonB then (b, .error [.notCanonical]) else
+  if trx.issuer == b.self then (b, .error [.ownNode]) else
+  if trx.issuer == b.genesis then (b, .error [.genesisIssuer]) else
+  if b.indexHas trx.hash then (b, .error [.trxExists]) else
+  b.createLeafLocked trx order1 order2 tip
+
 def checkVertexExists (b : Book) (h : Hash) : Bool := b.hasVertex h || b.cpHasVertex h
 
 /-- replier.go insert -/
@@ -339,11 +344,7 @@ def checkParents (b : Book) (leaf : Vertex) (rep : Nat) :
       else checkParents b leaf rep hs (acc ++ [existing])
 
 /-- accountant.go addLeafMemorized -/
-def addLeafMemorized (b : Book) (leaf : Vertex) (rep : Nat) : Book × Except Err Unit :=
-  if leaf.trx.issuer == b.genesis then (b, .error [.genesisIssuer]) else
-  if b.checkVertexExists leaf.hash then (b, .error [.leafExists]) else
-  if b.indexHas leaf.trx.hash then (b, .error [.trxExists]) else
-  if !leaf.vok then (b, .error [.leafRejected]) else
+def addLeafLocked (b : Book) (leaf : Vertex) (rep : Nat) : Book × Except Err Unit :=
   match checkParents b leaf rep [leaf.left, leaf.right] [] with
   | (b1, .error e) => (b1, .error e)
   | (b1, .ok validated) =>
@@ -351,6 +352,15 @@ def addLeafMemorized (b : Book) (leaf : Vertex) (rep : Nat) : Book × Except Err
     | (b', none) => (b', .ok ())
     | (b', some 1) => (b', .error [.unexpected, .trxExists])
     | (b', some _) => (b', .error [.leafRejected])
+
+/-- addLeafMemorized: the checks made before `ab.mux.Lock()` (on the book of that moment), then the locked
+body `addLeafLocked`. -/
+def addLeafMemorized (b : Book) (leaf : Vertex) (rep : Nat) : Book × Except Err Unit :=
+  if leaf.trx.issuer == b.genesis then (b, .error [.genesisIssuer]) else
+  if b.checkVertexExists leaf.hash then (b, .error [.leafExists]) else
+  if b.indexHas leaf.trx.hash then (b, .error [.trxExists]) else
+  if !leaf.vok then (b, .error [.leafRejected]) else
+  b.addLeafLocked leaf rep
 
 /-- accountant.go AddLeaf -/
 def addLeaf (b : Book) (leaf : Vertex) : Book × Except Err Unit :=
